@@ -118,7 +118,7 @@ Definition EE : Values.env :=
    (n_In, Values.TInput [(n_r, {| Values.in_type := Values.StNamed n_Int'; Values.in_default := Some (Values.GInt 2) |});
                          (n_m, {| Values.in_type := Values.StNamed n_Int'; Values.in_default := None |})] Values.HNone)].
 Definition the_field : afield Z :=
-  {| af_argdefs := [(n_xs, {| Values.in_type := Values.StList (Values.StNamed n_Int'); Values.in_default := None |});
+  {| af_name := []; af_argdefs := [(n_xs, {| Values.in_type := Values.StList (Values.StNamed n_Int'); Values.in_default := None |});
                     (n_o, {| Values.in_type := Values.StNamed n_In; Values.in_default := None |})];
      af_args := [(n_xs, Values.LVar n_l); (n_o, Values.LObject [(n_m, Values.LVar n_v)])];
      af_cost := Some (fun ctx a => Some {| fc_r := match Values.aget n_xs a with Some (Values.GList l) => Z.of_nat (length l) | _ => 0 end;
@@ -182,3 +182,38 @@ Example fragment_body_expands :
   Expand dflt frs [nF] 5 (Node KOther [Node KOther [rc]]) [ENode 5 0 []] /\
   Expand dflt frs [] 7 (Node KOther [Node KOther [rc]]) [ENode 7 0 []].
 Proof. split; apply (expand_sound Z dflt frs 3); vm_compute; reflexivity. Qed.
+
+(** * round 4 *)
+From ApiFu Require Import Cost.CostTrace Cost.CostTraceProofs Cost.CostC04.
+
+(** the request of [request_costed], traced: one call, of [the_field], under context 0, with the
+    argument map of [args_seen] *)
+Definition the_op : aop Z :=
+  {| ao_name := None; ao_vardefs := the_defs; ao_body := ANode AOther [ANode (AField the_field) []] |}.
+Example trace_instance :
+  map (fun c => (c_ctx c, c_args c)) (snd (validate_cost_trace Z EE dtn true 1 dflt 0 [the_op] [] [] the_raw 5))
+  = [(0, [(n_o, Values.GMap [(n_m, Values.GInt 3); (n_r, Values.GInt 2)]);
+          (n_xs, Values.GList [Values.GInt 4; Values.GInt 5])])]
+  /\ fst (validate_cost_trace Z EE dtn true 1 dflt 0 [the_op] [] [] the_raw 5) = Done 2 false.
+Proof. vm_compute. split; reflexivity. Qed.
+
+(** the hypotheses of the every-call theorems hold of it (the only field selection is [the_field]) *)
+Lemma only_field f : in_request Z the_op [] f -> f = the_field.
+Proof.
+  intros [H|(p & [] & _)]. cbn [ao_body the_op] in H.
+  inversion H as [|k kids n f' Hin Hf]; subst.
+  destruct Hin as [<-|[]]. inversion Hf as [f'' kids'|k' kids' n' f'' Hin' _]; subst; [reflexivity|destruct Hin'].
+Qed.
+Example trace_hypotheses :
+  chosen_op Z [the_op] [] = Some the_op /\
+  CoerceModel.has_dup (map Values.vd_name (ao_vardefs the_op)) = false /\
+  (forall f, in_request Z the_op [] f ->
+     CoerceSpec.dup_names (map fst (af_args f)) = false /\
+     forallb (fun al => CoerceSpec.lit_nodup (snd al)) (af_args f) = true /\
+     CoerceModel.has_dup (map fst (af_argdefs f)) = false /\
+     forallb (fun ad => CoerceSpec.default_ok EE (snd ad)) (af_argdefs f) = true /\
+     field_usage_ok Z EE (ao_vardefs the_op) f = true).
+Proof.
+  split; [reflexivity|]. split; [reflexivity|].
+  intros f Hf. rewrite (only_field f Hf). vm_compute. repeat split; reflexivity.
+Qed.
